@@ -370,8 +370,8 @@ class FakeSession:
         start, end = int(a), int(b)
         n = end - start + 1
         ctl = CURRENT
-        if ctl is not None:
-            ctl.point("fetch", extra=(start, n))
+        if ctl is not None and not ctl.seek_yields:
+            ctl.point("fetch", extra=(start, n))       # queue strategy: the request completes when the controller says so
         self.world.requests.append((start, n))
         if (start, n) in self.world.failing:
             return FakeResponse(b"", FakeHTTPError(start, n))
@@ -413,6 +413,13 @@ class Patched:
                 if ctl.seek_yields:
                     ctl.point("seek")
                 return real_stream.seek(self, pos, whence)
+
+            def read(self, n):
+                # executor strategy: seek and read are separate observable operations of a job (a stream shared between
+                # jobs could be moved in between); the whole read = range computation + response + position update is one step
+                if ctl.seek_yields and n != 0:
+                    ctl.point("fetch")
+                return real_stream.read(self, n)
 
         class FutProxy:
             def __init__(self, fut, idx):
@@ -712,14 +719,19 @@ def canon_impl(mode, res):
     return (o, "".join("1" if e else "0" for e in res["exited"]) or "-", "blocked" if dead else "finished")
 
 
-def canon_model(mode, line):
+def pad(hexs, total):
+    """out_compressed_bytes is a zero-filled bytearray of the summed sizes: bytes the strategies do not write stay zero"""
+    return hexs + "00" * max(0, total - len(hexs) // 2)
+
+
+def canon_model(mode, line, total=0):
     head, kv = parse_kv(line)
     if head != "ok":
         return ("rejected: " + line,)
     if mode == "queue":
         st = kv["status"]
         if st == "returned":
-            o = "returned:" + kv["buf"][1:]
+            o = "returned:" + pad(kv["buf"][1:], total)
         elif st == "running":
             o = "none"
         else:
@@ -728,7 +740,7 @@ def canon_model(mode, line):
     else:
         o = kv["outcome"]
         if o.startswith("returned:"):
-            o = "returned:" + o[len("returned:") + 1:]
+            o = "returned:" + pad(o[len("returned:") + 1:], total)
         done = kv["main"] == "done"
         if not done:
             o = "none"
@@ -870,7 +882,7 @@ def correspond(ctx):
     seen = set()
     for (c, res), line in zip(_RESULTS, outs):
         ctx.traces += 1
-        m = canon_model(c["mode"], line)
+        m = canon_model(c["mode"], line, sum(n for _, n in c["ranges"]))
         i = canon_impl(c["mode"], res)
         if m != i:
             kind = f"{c['mode']}-strategy: " + ("trace not accepted by the model" if m[0].startswith("rejected") else "outcome differs from the model")
